@@ -94,7 +94,7 @@ PANIC_TABLE = {
     ("<darling_core::options::shape::DataShape as quote::to_tokens::ToTokens>::to_tokens", "parse-quote"): dict(max=1, scope="derive", const=True, why="constant path"),
     ("darling_core::options::ParseAttribute::parse_attributes", "parse-quote"): dict(max=1, scope="derive", const=True, why="constant path `darling`"),
     ("<syn::path::Path as darling_core::usage::type_params::UsesTypeParams>::uses_type_params", "index"): dict(
-        max=1, scope="both", guard=[r"is_empty\(self\.segments\)=False"], why="segments[0] under !segments.is_empty()"),
+        max=1, scope="both", guard=[("ne", r"^len\(self\.segments\)$", 0)], why="segments[0] under !segments.is_empty()"),
     ("<darling_core::util::flag::Flag as darling_core::from_meta::FromMeta>::from_meta", "result-unwrap"): dict(
         max=1, scope="both", who="unit-overrides-only-from-word", guard=[("ne", r"^discr\(a1\)$", "Path")],
         why="<()>::from_meta(non-path) is an Err because () overrides only from_word"),
@@ -137,7 +137,22 @@ def census_sites(ctx, bodies):
     """(body, blk, kind, detail) for every panic-capable site of `bodies` (asserts added by debug
     pointer checks and full-range indexing excluded)."""
     out = []
+    # a private `fn x() -> !` that only panics is the panic of each of its callers (factoring a
+    # panic message into a helper does not move the obligation away from the guarded call sites)
+    diverging = {}
     for b in bodies:
+        if b.kind in ("Fn", "AssocFn") and b.local_ty(0) == "!" and str(b.raw.get("vis", "")).startswith("Restricted"):
+            diverging[b.key] = b
+    called = set()
+    for b in bodies:
+        for blk, t in b.calls():
+            c = mir.callee_of(t)
+            if c in diverging and b.key != c:
+                called.add(c)
+                out.append((b, blk, "panic", "%s (diverging helper)" % c))
+    for b in bodies:
+        if b.key in called:
+            continue
         for blk, kind, detail in scan.panic_sites(b):
             if kind.startswith(IGNORED_ASSERTS):
                 continue
@@ -304,6 +319,12 @@ def error_discipline(ctx, rule, bodies):
             for (fn, typ), why in ERROR_DROP_TABLE.items():
                 if _row_fn(fn, b.key) and ty.startswith(typ):
                     key = (fn, typ)
+            if key is None and re.search(r"(::into_iter::IntoIter<|::iter::adapters::)", ty):
+                # an iterator over errors dropped where its `next()` has just returned None is empty
+                pcs = ctx.pc_strs(b, blk)
+                if pcs and all(ctx._sat(d, r"^is_some\(.*Iterator(>)?::next\(.*\)\)=False$") for d in pcs):
+                    ctx.ob(rule + ".drop", b.key, "drop " + ty[:80], True, "exhausted iterator (dropped on the edge where next() returned None)")
+                    continue
             ctx.ob(rule + ".drop", b.key, "drop " + ty[:80], key is not None,
                    "a value that may carry darling errors is dropped on a normal path (bb%d); table rows: %d" % (blk, len(ERROR_DROP_TABLE)))
         for blk, t in b.calls():
